@@ -165,7 +165,8 @@ def execute(bins, impl, scripts, tag):
     res = vlib.run_parallel(tasks)
     unsupported = sorted({l for _, err in res for l in err.splitlines() if l.startswith("UNSUPPORTED")})
     leaks = [l for _, err in res for l in err.splitlines() if l.startswith("SUMMARY") and not l.endswith("live_delta=0")]
-    return outs, {"scripts": n, "unsupported": unsupported, "leaks": leaks}
+    diverged = sum(1 for _, err in res for l in err.splitlines() if l.startswith("DIVERGED"))
+    return outs, {"scripts": n, "unsupported": unsupported, "leaks": leaks, "diverged": diverged}
 
 
 def run_impl(tier, mdl, bins, impl, avoid=None):
@@ -175,7 +176,12 @@ def run_impl(tier, mdl, bins, impl, avoid=None):
     merged = concat(tr1 + tr2, os.path.join(vlib.workdir("traces"), "sum_%s_merged" % impl), 8)
     tv = vlib.tv_parallel("SumTrace.tla", "SumTrace.cfg", merged, "sum_tv_" + impl)
     st = {"scripts": st1["scripts"] + st2["scripts"], "unsupported": sorted(set(st1["unsupported"]) | set(st2["unsupported"])),
-          "leaks": st1["leaks"] + st2["leaks"], "edge_unsupported": st1["unsupported"]}
+          "leaks": st1["leaks"] + st2["leaks"], "edge_unsupported": st1["unsupported"],
+          "diverged": st1["diverged"] + st2["diverged"]}
+    if st["diverged"] and not tv["deviations"]:
+        # the driver dropped the rest of a script because the real state was not the planned one, yet no
+        # event was judged deviating: the planner and the driver disagree - never a verdict about etl
+        raise vlib.ModelFailure("%d script(s) diverged from the planned state without a recorded deviation (%s)" % (st["diverged"], impl))
     return tv, st
 
 
@@ -189,6 +195,8 @@ def pipeline(tier, rep, calibrate=True):
     rep.cov["modules"]["Sum"].update({"not_drivable": nd, "compile_probes": have})
     if st["leaks"]:
         rep.notes.append({"live_count_imbalance": st["leaks"]})
+    if st["diverged"]:
+        rep.notes.append({"scripts_cut_after_a_deviation": st["diverged"]})
     if calibrate:
         ctv, cst = run_impl(tier, mdl, bins, "std", avoid=st["edge_unsupported"])
         if ctv["deviations"]:
